@@ -139,6 +139,18 @@ class Driver:
         self.eng.engine._logger.removeHandler(self.cap)
         self.eng.close()
 
+    def reset(self):
+        """Empties every table (identifier counter keeps running): a fresh store without paying for a new engine."""
+        import sqlite3
+        con = sqlite3.connect(self.eng.path)
+        try:
+            for (t,) in con.execute("select name from sqlite_master where type='table'").fetchall():
+                if t != 'sqlite_sequence':
+                    con.execute('delete from "%s"' % t)
+            con.commit()
+        finally:
+            con.close()
+
     def run(self, item, version=(1, 2), user='alice'):
         """-> observation dict {status, reason, crash: None | {site, exc}, crypto: [(fn, outcome)], warned}"""
         self.cap.reset()
@@ -704,7 +716,8 @@ def _other_loc(n):
 
 # ---------------------------------------------------------------------------------------------- Python -> Coq terms
 HEADER = ('From Coq Require Import ZArith List String Bool.\nFrom PK Require Import NoCrash.Model NoCrash.Cases.\n'
-          'Import ListNotations.\nOpen Scope string_scope.\nOpen Scope list_scope.\nOpen Scope Z_scope.\n')
+          'Import ListNotations.\nOpen Scope string_scope.\nOpen Scope list_scope.\nOpen Scope Z_scope.\n'
+          'Definition length {A} := @List.length A.\n')
 
 
 def c_optz(x):
@@ -997,9 +1010,9 @@ def stratified(menu, rng, per_op, extra):
     return out
 
 
-def run_target(grid, ctx, ver, t, st, rng, sample):
-    drv = Driver(ctx)
-    try:
+def run_target(grid, drv, ver, t, st, rng, sample):
+    drv.reset()
+    if True:
         wk = add_object(drv, obj_spec('SYMMETRIC_KEY', 'Active', 'all'), 90)
         wk2 = add_object(drv, obj_spec('SYMMETRIC_KEY', 'PreActive', 'all'), 91)
         spec = obj_spec(t, st, 'all', names=2, asi=1, groups=1, how=('create' if rng.random() < 0.3 else 'register'))
@@ -1016,8 +1029,6 @@ def run_target(grid, ctx, ver, t, st, rng, sample):
             grid.cell(drv, req, ver, store, desc='%s.%s' % (t, st))
             if req['op'] in MUTATING:
                 store = observe_store(drv)
-    finally:
-        drv.close()
 
 
 def run_aux(grid, ctx, ver, rng, sample):
@@ -1157,8 +1168,12 @@ def run(ctx):
     run_corpus(grid, ctx)
     sample = (1, 6) if quick else None
     for ver in kdrv.VERSIONS:
-        for t, st in TARGETS:
-            run_target(grid, ctx, ver, t, st, rng, sample)
+        drv = Driver(ctx)
+        try:
+            for t, st in TARGETS:
+                run_target(grid, drv, ver, t, st, rng, sample)
+        finally:
+            drv.close()
         run_aux(grid, ctx, ver, rng, (1, 4) if quick else None)
         run_global(grid, ctx, ver, rng, (1, 10) if quick else None)
         ctx.log('version %d.%d done: %d cells, %d distinct cases, %d GENERAL_FAILURE' % (ver[0], ver[1], grid.cells, len(grid.cases), grid.crashes))
